@@ -174,7 +174,7 @@ def run_family(ck, fam, count, clause, nontrivial, extra_args=(), corpus=True, k
         for p in sorted(glob.glob("%s/corpus/%s/*.json" % (lib.VERIF, ck.prop))):
             doc = json.load(open(p))
             s = doc.get("script", doc)
-            if s.get("family", "synchist") in (fam.split("-")[0],) or True:
+            if "actions" in s or "concurrent" in s:
                 r = exec_script(ck, s, "corpus")
                 r["from_corpus"] = os.path.basename(p)
                 cases.append(r)
